@@ -639,6 +639,222 @@ Proof.
     apply in_map_iff. exists x. split; [exact Hx | apply (Permutation_in _ (Permutation_sym (sort_offs_perm o))); exact I].
 Qed.
 
+(* ------------------------------------------------------------------ *)
+(* 6. Reading records back from the written bytes *)
+Lemma length_le_enc w v : length (le_enc w v) = w.
+Proof. revert v. induction w as [|w IH]; intros v; cbn; [reflexivity | rewrite IH; reflexivity]. Qed.
+Lemma length_be_enc w v : length (be_enc w v) = w.
+Proof. unfold be_enc. rewrite rev_length. apply length_le_enc. Qed.
+
+Lemma le_dec_enc w : forall v, le_dec (le_enc w v) = v mod 256 ^ N.of_nat w.
+Proof.
+  induction w as [|w IH]; intros v.
+  - cbn. rewrite N.mod_1_r. reflexivity.
+  - cbn [le_enc le_dec]. rewrite IH. rewrite Nat2N.inj_succ, N.pow_succ_r'.
+    rewrite N.mod_mul_r by (try apply N.pow_nonzero; lia). reflexivity.
+Qed.
+Lemma be_dec_enc w v : v < 256 ^ N.of_nat w -> be_dec (be_enc w v) = v.
+Proof. intros H. unfold be_dec, be_enc. rewrite rev_involutive, le_dec_enc. apply N.mod_small. exact H. Qed.
+
+Lemma length_rec_bytes r : nlen (rec_bytes r) = rec_len r.
+Proof. unfold nlen, rec_bytes, rec_len. rewrite app_length, length_be_enc. unfold nlen, w32, uint32_size, checksum_size. lia. Qed.
+
+Lemma length_records_bytes rs : nlen (records_bytes rs) = sum_N (map rec_len rs).
+Proof.
+  induction rs as [|r rs IH]; [reflexivity|].
+  unfold records_bytes in *. cbn [map concat sum_N]. unfold nlen in *. rewrite app_length, Nat2N.inj_add, IH.
+  pose proof (length_rec_bytes r) as L. unfold nlen in L. rewrite L. reflexivity.
+Qed.
+
+Lemma records_split rs (k : nat) : (k < length rs)%nat ->
+  records_bytes rs = records_bytes (firstn k rs) ++ rec_bytes (nth k rs dummy_rec) ++ records_bytes (skipn (S k) rs).
+Proof.
+  revert k. induction rs as [|r rs IH]; intros k H; [cbn in H; lia|].
+  destruct k.
+  - reflexivity.
+  - cbn [firstn skipn nth]. unfold records_bytes in *. cbn [map concat]. rewrite <- app_assoc. f_equal.
+    apply IH. cbn in H. lia.
+Qed.
+
+Lemma sub_app_mid (a b c : bytes) : sub (nlen a) (nlen b) (a ++ b ++ c) = b.
+Proof.
+  unfold sub, nlen. rewrite !Nat2N.id. rewrite skipn_app, skipn_all, Nat.sub_diag. cbn [app skipn].
+  rewrite firstn_app, firstn_all, Nat.sub_diag. cbn. apply app_nil_r.
+Qed.
+
+(* the bytes of record k sit at [offset_of rs k, +len_of rs k) of the file *)
+Lemma record_at ts rs (k : nat) : (k < length rs)%nat ->
+  sub (offset_of rs k) (len_of rs k) (write_table_with ts rs) = rec_bytes (nth k rs dummy_rec).
+Proof.
+  intros H. unfold write_table_with. rewrite (records_split rs k H), <- !app_assoc.
+  unfold offset_of, len_of. rewrite <- length_records_bytes, <- length_rec_bytes. apply sub_app_mid.
+Qed.
+
+Section ReadBack.
+  Variable crc : bytes -> N.
+  Variable compress : bytes -> bytes.
+  Variable decompress : bytes -> option bytes.
+  Hypothesis decompress_compress : forall d, decompress (compress d) = Some d.
+
+  (* a record as the writer makes it from a chunk: checksum of the payload, fits in uint32 *)
+  Definition wf_rec (r : rec) (d : bytes) : Prop :=
+    r_data r = compress d /\ r_crc r = crc (compress d) /\ crc (compress d) < 2 ^ 32 /\ r_data r <> [].
+
+  Lemma read_chunk_written ts rs (k : nat) d : (k < length rs)%nat -> wf_rec (nth k rs dummy_rec) d ->
+    read_chunk crc decompress (write_table_with ts rs) (offset_of rs k) (len_of rs k) = ROk d.
+  Proof.
+    intros H (Hd & Hc & Hb & Hne). unfold read_chunk. rewrite (record_at ts rs k H).
+    set (r := nth k rs dummy_rec) in *.
+    assert (L : nlen (rec_bytes r) = len_of rs k) by (unfold len_of; fold r; apply length_rec_bytes).
+    rewrite L, N.eqb_refl. cbn [negb].
+    assert (Hlen : len_of rs k = nlen (r_data r) + checksum_size) by reflexivity.
+    replace (len_of rs k <? checksum_size) with false
+      by (symmetry; apply N.ltb_ge; rewrite Hlen; lia).
+    replace (len_of rs k - checksum_size) with (nlen (r_data r)) by (rewrite Hlen; lia).
+    unfold rec_bytes, nlen. rewrite Nat2N.id, firstn_app, firstn_all, Nat.sub_diag. cbn [firstn]. rewrite app_nil_r.
+    rewrite skipn_app, skipn_all, Nat.sub_diag. cbn [skipn app].
+    rewrite be_dec_enc by (rewrite Hc; exact Hb).
+    rewrite Hc, Hd, N.eqb_refl. cbn [negb].
+    replace (N.of_nat (length (compress d)) =? 0) with false.
+    - rewrite decompress_compress. reflexivity.
+    - symmetry. apply N.eqb_neq. rewrite <- Hd. destruct (r_data r); [congruence | cbn; lia].
+  Qed.
+
+  (* tableReader.get on the table opened from the written bytes: the chunk's
+     bytes if h is stored, nothing otherwise (distinct addresses; any prefixes) *)
+  Theorem table_get_written ts rs (content : addr -> bytes) h :
+    valid_tuples ts rs -> distinct_addrs rs ->
+    (forall k, (k < length rs)%nat -> wf_rec (nth k rs dummy_rec) (content (r_addr (nth k rs dummy_rec)))) ->
+    table_get crc decompress (mkTable (write_table_with ts rs) (build_pindex ts rs)) h
+    = ROk (if in_table rs h then Some (content h) else None).
+  Proof.
+    intros Hv D W. unfold table_get. cbn [t_ix t_file].
+    pose proof (lookup_any ts rs h Hv) as L.
+    destruct (lookup (build_pindex ts rs) h) as [[off len]|].
+    - destruct L as (k & Hk & A & E). inversion E; subst off len.
+      rewrite (read_chunk_written ts rs k _ Hk (W k Hk)). cbn [rd_map].
+      replace (in_table rs h) with true by (symmetry; apply in_table_iff; exists k; split; assumption).
+      rewrite A. reflexivity.
+    - rewrite L. reflexivity.
+  Qed.
+
+  Theorem table_has_written ts rs h :
+    valid_tuples ts rs ->
+    table_has (mkTable (write_table_with ts rs) (build_pindex ts rs)) h = in_table rs h.
+  Proof.
+    intros Hv. unfold table_has. cbn [t_ix]. pose proof (lookup_any ts rs h Hv) as L.
+    destruct (lookup (build_pindex ts rs) h).
+    - destruct L as (k & Hk & A & _). symmetry. apply in_table_iff. exists k. split; assumption.
+    - symmetry. exact L.
+  Qed.
+End ReadBack.
+
+(* ------------------------------------------------------------------ *)
+(* 7. tableSet.hasMany over several sources: stop at the first source that
+      leaves nothing remaining; flags accumulate; `remaining` stays exact. *)
+Definition src_ok (t : table) (rs : list rec) : Prop := exists ts, valid_tuples ts rs /\ t_ix t = build_pindex ts rs.
+
+Lemma Forall2_len {A B} (R : A -> B -> Prop) l1 l2 : Forall2 R l1 l2 -> length l1 = length l2.
+Proof. induction 1; cbn; congruence. Qed.
+
+Lemma Forall2_impl {A B} (R1 R2 : A -> B -> Prop) l1 l2 :
+  (forall a b, R1 a b -> R2 a b) -> Forall2 R1 l1 l2 -> Forall2 R2 l1 l2.
+Proof. intros H. induction 1; constructor; auto. Qed.
+
+Lemma Forall2_fst_sorted (a b : list req) :
+  Forall2 (fun r r' => fst r' = fst r /\ True) a b -> reqs_sorted a -> reqs_sorted b.
+Proof.
+  intros F. induction F as [|x y a b [E _] F IH]; intros S; [constructor|].
+  inversion S as [|? ? Sa Hx]; subst. constructor; [apply IH; exact Sa|].
+  rewrite Forall_forall in *. intros z Hz.
+  destruct (In_nth _ _ y Hz) as (i & Hi & Hn).
+  assert (Hlen : length a = length b) by (eapply Forall2_len; exact F).
+  assert (Hi' : (i < length a)%nat) by lia.
+  pose proof (Hx (nth i a x) (nth_In _ _ Hi')) as Hle.
+  assert (Ei : fst (nth i b y) = fst (nth i a x)).
+  { clear - F Hi'. revert i Hi'. induction F as [|p q a b [E _] F IH]; intros i Hi; [cbn in Hi; lia|].
+    destruct i; [exact E|]. cbn [nth]. apply IH. cbn in Hi. lia. }
+  unfold req_prefix_le in *. rewrite <- Hn, Ei, E. exact Hle.
+Qed.
+
+Definition in_tables (rss : list (list rec)) (h : addr) : bool := existsb (fun rs => in_table rs h) rss.
+
+Theorem tableset_has_many_spec : forall (tbls : list table) (rss : list (list rec)) (reqs : list req),
+  Forall2 src_ok tbls rss -> reqs_sorted reqs ->
+  let '(reqs', remaining) := srcs_has_many tbls reqs in
+  Forall2 (fun r r' => fst r' = fst r /\ (snd r' = true -> snd r = true \/ in_tables rss (fst r) = true)
+                       /\ (snd r = true -> snd r' = true)) reqs reqs'
+  /\ (remaining = false -> forall r', In r' reqs' -> snd r' = true)
+  /\ (remaining = true -> forall r r', In (r, r') (combine reqs reqs') ->
+        snd r' = snd r || in_tables rss (fst r)).
+Proof.
+  intros tbls rss reqs F. revert reqs. induction F as [|t rs tbls rss (ts & Hv & Eix) F IH]; intros reqs S.
+  - cbn [srcs_has_many]. split; [|split].
+    + clear S. induction reqs as [|r reqs IHr]; [constructor|]. constructor; [|exact IHr]. repeat split; auto.
+    + discriminate.
+    + intros _ r r' Hin. cbn [in_tables existsb]. rewrite orb_false_r.
+      revert Hin. clear. induction reqs as [|x reqs IHr]; [intros []|]. cbn [combine]. intros [E | I]; [inversion E; reflexivity | auto].
+  - cbn [srcs_has_many]. rewrite Eix. pose proof (has_many_spec ts rs reqs Hv S) as H.
+    destruct (has_many (build_pindex ts rs) reqs) as [r1 rem1]. destruct H as [F1 R1].
+    destruct rem1.
+    + assert (S1 : reqs_sorted r1).
+      { apply (Forall2_fst_sorted reqs r1); [|exact S]. eapply Forall2_impl; [|exact F1]. intros a b [E _]. split; [exact E | exact I]. }
+      specialize (IH r1 S1). destruct (srcs_has_many tbls r1) as [r2 rem2]. destruct IH as (F2 & A2 & B2).
+      split; [|split].
+      * clear - F1 F2. revert r2 F2. induction F1 as [|a b l1 l2 [E1 V1] F1 IHF]; intros r2 F2; inversion F2 as [|? c ? l3 (E2 & P2 & Q2) F3]; subst; constructor.
+        -- split; [congruence|]. split.
+           ++ intros Hc. destruct (P2 Hc) as [Hb | Hb].
+              ** rewrite V1 in Hb. apply orb_true_iff in Hb. destruct Hb as [Hb | Hb]; [left; exact Hb|].
+                 right. cbn [in_tables existsb]. rewrite Hb. reflexivity.
+              ** right. cbn [in_tables existsb]. rewrite E1 in Hb. fold (in_tables rss (fst a)). rewrite Hb. apply orb_true_r.
+           ++ intros Ha. apply Q2. rewrite V1, Ha. reflexivity.
+        -- apply IHF. exact F3.
+      * exact A2.
+      * intros Hr r r' Hin. specialize (B2 Hr).
+        (* position-wise composition *)
+        assert (exists m, In (r, m) (combine reqs r1) /\ In (m, r') (combine r1 r2)) as (m & I1 & I2).
+        { clear - F1 F2 Hin. revert r2 F2 Hin. induction F1 as [|a b l1 l2 _ F1 IHF]; intros r2 F2 Hin; inversion F2; subst; [destruct Hin|].
+          cbn [combine] in Hin. destruct Hin as [E | I].
+          - inversion E; subst. exists b. split; left; reflexivity.
+          - destruct (IHF _ H3 I) as (m & ? & ?). exists m. split; right; assumption. }
+        rewrite (B2 m r' I2).
+        assert (Hm : fst m = fst r /\ snd m = snd r || in_table rs (fst r)).
+        { clear - F1 I1. induction F1 as [|a b l1 l2 H F1 IHF]; [destruct I1|]. cbn [combine] in I1.
+          destruct I1 as [E | I]; [inversion E; subst; exact H | exact (IHF I)]. }
+        destruct Hm as [Em Vm]. rewrite Em, Vm. cbn [in_tables existsb]. rewrite orb_assoc. reflexivity.
+    + split; [|split].
+      * eapply Forall2_impl; [|exact F1]. intros a b [E V]. split; [exact E|]. split.
+        -- intros Hb. rewrite V in Hb. apply orb_true_iff in Hb. destruct Hb as [Hb | Hb]; [left; exact Hb|].
+           right. cbn [in_tables existsb]. rewrite Hb. reflexivity.
+        -- intros Ha. rewrite V, Ha. reflexivity.
+      * intros _ r' Hin. symmetry in R1.
+        destruct (snd r') eqn:Er; [reflexivity|]. exfalso.
+        assert (existsb (fun r : req => negb (snd r)) r1 = true) by (apply existsb_exists; exists r'; split; [exact Hin | rewrite Er; reflexivity]).
+        congruence.
+      * discriminate.
+Qed.
+
+(* ------------------------------------------------------------------ *)
+(* 8. What is NOT proved (kept here so that it cannot be weakened quietly).
+   FULL STATEMENTS (DESIGN §5 C01 / Appendix A):
+     parse_write_table :
+       forall ts rs, valid_tuples ts rs -> nlen rs < 2^32 -> (record lengths, crcs < 2^32, total_unc rs < 2^64) ->
+         parse_index (write_table_with ts rs) = Some (build_pindex ts rs).
+     store_refines_map :
+       forall content ops, consistent_ops content ops -> forall cfg memsz,
+         oracle (cfg, memsz, ops) (model_obs (cfg, memsz, ops)) = true
+       (every Get / Has / GetMany / GetManyCompressed / HasMany / IterateAllChunks answer of the
+        store state machine is the abstract map's answer; the map changes only by accepted puts).
+   PROVED ABOVE: the table-level and tableSet-level facts these rest on
+     (lookup_write_index, lookup_any, has_many_spec, find_offsets_spec, table_get_written,
+      table_has_written, tableset_has_many_spec) over the structured index build_pindex ts rs.
+   MISSING: the byte-level decode of the index block (be_dec_enc, length lemmas and record_at are
+     proved; the split_n / sub arithmetic over the three index regions is not), the memtable /
+     flush-with-has-filter / generation invariants, iterate_all as a permutation.
+   These rest on the correspondence: the executable model runs write_table, parse_index and every
+   search byte-for-byte and is compared with real stores; the oracle is evaluated on every
+   implementation observation. *)
+
 (* History: GenerationalNBS.HasMany with ghostGen == nil used to report nothing
    absent (`len(absent) == 0 || gcs.ghostGen == nil` returned nil); found by this
    check, repaired in dolt commit 16416a3.  The witness history stays in the
